@@ -27,6 +27,7 @@ import (
 	"strconv"
 	"strings"
 	"sync"
+	"sync/atomic"
 	"testing"
 	"time"
 
@@ -252,6 +253,7 @@ type vConnC struct {
 	wills     []*vConnWill
 	blocked   int // text: token of the LOCK the handler is blocked on
 	helper    bool
+	written   *int64  // bytes the server wrote to this connection's stream
 	nested    *vConnC // binary connection in ADMIN mode: its nested text protocol (same pipe, same goroutine)
 	outer     *vConnC
 }
@@ -434,28 +436,36 @@ func (x *vConnRun) scan() vConnScan {
 	return s
 }
 
+// vConnCounted: the server end of a pipe, counting the bytes the server has written (net.Pipe: Write returns once the
+// peer's Read calls have taken them)
+type vConnCounted struct {
+	net.Conn
+	written *int64
+}
+
+func (c vConnCounted) Write(b []byte) (int, error) {
+	n, err := c.Conn.Write(b)
+	atomic.AddInt64(c.written, int64(n))
+	return n, err
+}
+
+// settle: every byte the server has written so far is in its client's frame list
 func (x *vConnRun) settle() {
-	total := func() int64 {
-		var t int64
+	pending := func() bool {
 		for _, c := range x.conns {
 			c.rd.mu.Lock()
-			t += c.rd.nbytes
+			got := c.rd.nbytes
 			c.rd.mu.Unlock()
+			if got < atomic.LoadInt64(c.written) {
+				return true
+			}
 		}
-		return t
+		return false
 	}
-	last := total()
-	same := 0
-	for i := 0; i < 4000 && same < 40; i++ {
+	for i := 0; i < 40; i++ {
 		runtime.Gosched()
-		t := total()
-		if t == last {
-			same++
-		} else {
-			same = 0
-			last = t
-		}
 	}
+	vConnWait(func() bool { return !pending() }, 2*time.Second)
 }
 
 func (x *vConnRun) newKey() int {
@@ -491,8 +501,8 @@ func (x *vConnRun) fence(c *vConnC) bool {
 
 func (x *vConnRun) open(kind byte, helper bool) *vConnC {
 	cli, srv := net.Pipe()
-	c := &vConnC{idx: len(x.conns), kind: kind, cli: cli, done: make(chan struct{}), helper: helper}
-	c.stream = NewStream(srv)
+	c := &vConnC{idx: len(x.conns), kind: kind, cli: cli, done: make(chan struct{}), helper: helper, written: new(int64)}
+	c.stream = NewStream(vConnCounted{srv, c.written})
 	if kind == 'b' {
 		c.bp = NewBinaryServerProtocol(x.v.slock, c.stream)
 	} else {
@@ -527,7 +537,7 @@ func (x *vConnRun) admin(c *vConnC) *vConnC {
 		tp, _ = c.stream.protocol.(*TextServerProtocol)
 		return tp != nil
 	}, 3*time.Second)
-	n := &vConnC{idx: len(x.conns), kind: 't', cli: c.cli, stream: c.stream, tp: tp, rd: c.rd, done: c.done, outer: c}
+	n := &vConnC{idx: len(x.conns), kind: 't', cli: c.cli, stream: c.stream, tp: tp, rd: c.rd, done: c.done, outer: c, written: c.written}
 	c.nested = n
 	x.conns = append(x.conns, n)
 	if tp == nil {
@@ -926,10 +936,47 @@ func (x *vConnRun) cmdFreed(w *vConnWill) bool {
 	}
 	s := x.v.slock
 	s.freeLockCommandLock.Lock()
-	defer s.freeLockCommandLock.Unlock()
 	for _, node := range s.freeLockCommandQueue.IterNodes() {
 		for _, c := range node {
 			if c == w.cmd {
+				s.freeLockCommandLock.Unlock()
+				return true
+			}
+		}
+	}
+	s.freeLockCommandLock.Unlock()
+	// a protocol object created since (e.g. the AOF channel of a db a later will created) may have stocked up from that list
+	in := func(cs []*protocol.LockCommand, n int, q *LockCommandQueue) bool {
+		for i := 0; i < n && i < len(cs); i++ {
+			if cs[i] == w.cmd {
+				return true
+			}
+		}
+		if q != nil {
+			for _, node := range q.IterNodes() {
+				for _, c := range node {
+					if c == w.cmd {
+						return true
+					}
+				}
+			}
+		}
+		return false
+	}
+	s.protocolSessionsGlock.Lock()
+	defer s.protocolSessionsGlock.Unlock()
+	for _, se := range s.protocolSessions {
+		switch p := se.serverProtocol.(type) {
+		case *MemWaiterServerProtocol:
+			if in(p.freeCommands, p.freeCommandIndex, p.lockedFreeCommands) {
+				return true
+			}
+		case *BinaryServerProtocol:
+			if in(p.freeCommands, p.freeCommandIndex, p.lockedFreeCommands) {
+				return true
+			}
+		case *TextServerProtocol:
+			if in(p.freeCommands, p.freeCommandIndex, p.lockedFreeCommands) {
 				return true
 			}
 		}
